@@ -1,4 +1,4 @@
 SPECIFICATION TSpec
 CONSTANTS
   TraceFile = "trace.ndjson"
-INVARIANTS SLucky SLReset SNtimed SNState
+INVARIANTS SLucky SLReset SNtimed SNReads SNState
